@@ -138,7 +138,14 @@ def main():
         ("expect-bool-with-trace", "pub fn e(a: Int, b: Bool) -> Data {\n  expect (a > 0)?\n  expect b\n  let r: Data = a\n  r\n}\n", [[I(1), T], [I(0), T], [I(1), F_]], None),
         ("expect-list-pattern", "pub fn e(xs: List<Int>, b: Bool) -> Data {\n  expect [x, ..] = xs\n  let r: Data = if b { x } else { 7 }\n  r\n}\n", [[{"l": [I(5)]}, T], [{"l": []}, T], [{"l": []}, F_]], None),
         ("expect-record-cast", "pub type P { a: Int, b: ByteArray }\n\npub fn e(d: Data, b: Bool) -> Data {\n  expect p: P = d\n  let r: Data = if b { p.a } else { 0 }\n  r\n}\n", [[{"c": "0", "f": [I(1), Bt("00")]}, T], [{"c": "0", "f": [I(1)]}, F_], [{"c": "1", "f": [I(1), Bt("00")]}, F_], [I(0), F_]], None),
-        ("soft-cast-if-is", "pub fn e(d: Data, b: Bool) -> Data {\n  let r: Data = if d is v: Int { v + 1 } else { 0 }\n  r\n}\n", [[I(1), T], [Bt("00"), T]], None),
+        # bindings whose only use is inside a trace (argument or label): the trace may disappear with
+        # the setting, the binding's evaluation must not
+        ("let-used-only-as-trace-argument", "pub fn e(a: Int, b: Bool) -> Data {\n  let x = 10 / a\n  trace @\"x\": x\n  let r: Data = a\n  r\n}\n", [[I(1), T], [I(0), T], [I(0), F_]], None),
+        ("two-lets-used-only-as-trace-arguments", "use aiken/builtin\n\npub fn e(a: Int, b: Bool) -> Data {\n  let x = 10 / a\n  let y = builtin.head_list(if b { [a] } else { [] })\n  trace @\"xy\": x, y\n  let r: Data = a\n  r\n}\n", [[I(1), T], [I(0), T], [I(1), F_]], None),
+        ("expect-used-only-as-trace-argument", "pub fn e(d: Data, b: Bool) -> Data {\n  expect v: Int = d\n  trace @\"v\": v\n  let r: Data = b\n  r\n}\n", [[I(1), T], [Bt("00"), T], [{"l": []}, F_]], "F3_cast_cancel_expect"),  # rendering v re-wraps it: iData(unIData d) is cancelled, the failing cast disappears under verbose-user only
+        ("let-used-only-in-trace-label", "use aiken/builtin\n\npub fn e(a: Int, b: Bool) -> Data {\n  let s = builtin.decode_utf8(builtin.integer_to_bytearray(True, 0, 10 / a + 48))\n  trace s\n  let r: Data = a\n  r\n}\n", [[I(1), T], [I(0), T], [I(0), F_]], None),
+        ("let-used-only-as-trace-argument-in-branch", "pub fn e(a: Int, b: Bool) -> Data {\n  let r: Data =\n    if b {\n      let x = 10 / a\n      trace @\"x\": x\n      a\n    } else {\n      a + 1\n    }\n  r\n}\n", [[I(1), T], [I(0), T], [I(0), F_]], None),
+        ("soft-cast-if-is","pub fn e(d: Data, b: Bool) -> Data {\n  let r: Data = if d is v: Int { v + 1 } else { 0 }\n  r\n}\n", [[I(1), T], [Bt("00"), T]], None),
     ]
     tjobs = []
     for ti, (name, src, argsets, known_label) in enumerate(templates):
